@@ -58,6 +58,14 @@ CHECKS = {
          "preemption bound, 80 scenarios; each execution's observation must equal some sequential order of the operations.",
          "Bounds: depth and queue size for histories; 2 threads, <=2 socket operations, preemption bound 2/1 (quick) 3/2 (thorough).",
          "DESIGN.md 2/C03, 1.5", "world+explore+sched"),
+ "C05": ("model_checking",
+         "explicit-state BFS over TRXC command histories on the real Application with a full-alphabet fan-out in every state, reference-model oracle, behavioural probe per state",
+         "From 10 seeded prior states every command of a 121-entry alphabet (all verbs, argument counts 0..3 and the 130-argument SETFH, boundary values, "
+         "with/without NUL, second source address, non-CMD datagrams) is fired in every state reachable within the depth bound; each reply is compared "
+         "with the documented form/status, and each state's effects are observed by NOMTXPOWER/MEASURE/POWERON and bursts in both directions with a "
+         "freshly tuned peer at both ends of every random window.",
+         "Well-formed integer commands only; depth bound 2 (quick) / 3 (thorough) beyond the seeds; trxcon leg separate.",
+         "DESIGN.md 2/C05", "world+explore"),
 }
 
 PENDING = {}
